@@ -575,10 +575,19 @@ def _partition(frags, k):
     return [p for p in parts if p]
 
 
+PART_BYTES = 60 * 10 ** 6      # JSON text per TLC run (TLC holds the whole deserialised trace: ~ 5 GB heap at 150 MB)
+
+
+def _size(fr):
+    return len(fr["text"]) if "text" in fr else os.path.getsize(fr["path"])
+
+
 def validate_parts(frags, jvms):
-    """several TLC processes side by side; no reporting (may run in a helper thread)"""
-    parts = _partition(frags, jvms)
-    with cf.ThreadPoolExecutor(max_workers=len(parts) or 1) as ex:
+    """several TLC processes side by side (at most `jvms` at a time, every run bounded in size); no reporting (may
+    run in a helper thread)"""
+    nparts = max(jvms, -(-sum(_size(fr) for fr in frags) // PART_BYTES))
+    parts = _partition(frags, nparts)
+    with cf.ThreadPoolExecutor(max_workers=jvms or 1) as ex:
         results = list(ex.map(_validate, parts))
     return parts, results
 
